@@ -819,7 +819,7 @@ fn preempt_pairs_raw(verif_seed: u64, tier: &str) -> Vec<PreemptPair> {
     }
     // seeded part
     let mut rng = Rng::new(derive(verif_seed, &[0x5052454D, 1]));
-    let n = if tier == "thorough" { 240 } else { 8 };
+    let n = if tier == "thorough" { 120 } else { 8 };
     for _ in 0..n {
         let word = |rng: &mut Rng, max: u64| {
             let len = 1 + rng.below(max);
